@@ -6,7 +6,10 @@ Spec/GbLayout.lean `layoutFile`, so the text the real parser sees lies in the th
 from common import *
 import string
 
-RULE = ("abstract records laid out by the independent writer of Spec/GbLayout.lean: sequence 1..2000 letters (quick; a few to 2*10^4) "
+RULE = ("(locations: spans, single bases, complement, join, and the INSDC forms order/bond/gap/one-of, n.m, n^m, remote "
+        "acc.v:a..b as text; qualifiers quoted, unquoted, value-less, keys with capitals and digits, repeated keys; empty standard "
+        "blocks written or left out; extra keyword blocks in any of the 7 slots between LOCUS and FEATURES) "
+        "abstract records laid out by the independent writer of Spec/GbLayout.lean: sequence 1..2000 letters (quick; a few to 2*10^4) "
         "/ 1..10^5 (thorough), every molecule type x topology x division, LOCUS gaps 1..12 blanks, lengths of 1-6 digits, "
         "0..40 features with 0..8 qualifiers (values over printable ASCII without the double quote, with '/', '=', '//', leading/trailing "
         "blanks, long values wrapped at widths 20..79 or at random blanks, /translation cut mid-token), features without qualifiers, "
@@ -18,6 +21,8 @@ TRUSTED_BASE = ["Spec/GbLayout.lean: the independent writer (NCBI flat-file colu
                 "scanners standing for the four regular expressions of parseLocus/getSequence (checked by correspondence only)",
                 "ASCII restriction: Go rune/byte behaviour on non-ASCII input is outside the model"]
 ASSUMPTIONS = ["inputs are ASCII",
+               "location text is one INSDC-shaped expression (atom or operator(loc,...), complement with one operand): texts with unbalanced or stray parentheses are outside the domain (Spec isLocText)",
+               "extra keyword blocks have pairwise distinct keywords (Meta.Other is a map; GenBank has one block per keyword); SOURCE is always followed by its mandatory ORGANISM line",
                "parseLocation (property C02) does not panic on the location texts of the domain; C01 compares the location text only",
                "ioutil.ReadFile / gzip return the bytes written (Read* wrappers are checked by correspondence only)"]
 HARNESS_BIN = "run-genbank"
@@ -34,7 +39,7 @@ TRAPS = ["AUTHORS", "TITLE", "JOURNAL", "PUBMED", "REMARK", "ORGANISM", "LOCUS",
 MONTHS = "JAN FEB MAR APR MAY JUN JUL AUG SEP OCT NOV DEC".split()
 FKEYS = ["source", "gene", "CDS", "misc_feature", "primer_bind", "promoter", "rep_origin", "5'UTR", "-10_signal", "tRNA", "D-loop", "x"]
 QKEYS = ["label", "note", "product", "gene", "locus_tag", "db_xref", "codon_start", "transl_table", "organism", "mol_type",
-         "function", "inference", "bound_moiety", "standard_name", "k", "ec_number", "q2"]
+         "function", "inference", "bound_moiety", "standard_name", "k", "EC_number", "q2", "PCR_primers", "Note", "pseudo", "X9"]
 EXTRA = ["COMMENT", "DBLINK", "PRIMARY", "CONTIG", "PROJECT", "BASE", "NID", "SEGMENT", "X", "ABCDEFGHIJ"]
 PRINT_NOQ = "".join(chr(i) for i in range(32, 127) if chr(i) != '"')
 AMINO = "ACDEFGHIKLMNPQRSTVWY"
@@ -79,7 +84,7 @@ def breaks(r, t, prefix_len, mode=None):
     return out
 
 
-def cuts(r, t, first):
+def cuts_(r, t, first):
     """cut positions for a /translation value"""
     mode = r.choice(["58", "58", "random", "none"])
     if mode == "none":
@@ -103,6 +108,14 @@ def location(r, n, depth=0):
             s = s.replace("..", "..>")
         return s
     k = r.random()
+    if k < 0.12:
+        # INSDC forms the parser keeps as text only
+        a = r.randint(1, max(1, n)); b = r.randint(a, max(a, n))
+        return r.choice(["order(%d..%d,%d..%d)" % (a, b, a, b), "bond(%d,%d)" % (a, b), "gap(%d)" % a, "gap(unk100)",
+                         "%d.%d" % (a, b), "%d^%d" % (a, a + 1), "J00194.1:%d..%d" % (a, b),
+                         "join(J00194.1:%d..%d,%d..%d)" % (a, b, a, b), "order(complement(%d..%d),%d)" % (a, b, a),
+                         "complement(order(%d..%d,%d..%d))" % (a, b, a, b), "oneof(%d,%d)" % (a, b), str(r.randint(0, 9)),
+                         "join(%d.%d,<%d..>%d)" % (a, b, a, b)])
     if depth >= 2 or k < 0.5:
         return span()
     if k < 0.7:
@@ -155,7 +168,7 @@ def nats(l):
     return ",".join(str(x) for x in l)
 
 
-def record(r, tier, big=False, trap=0.001, small=False):
+def record(r, tier, big=False, trap=0.001, small=False, repeat=False):
     if big:
         n = loglen(r, 1000, 100000 if tier == "thorough" else 20000)
     elif small:
@@ -167,16 +180,30 @@ def record(r, tier, big=False, trap=0.001, small=False):
     seq = randword(r, r.choice(["acgt", "acgt", "ACGT", "acgtnACGTNryk", string.ascii_letters]), n)
     name = r.choice(["puc19", "seq1", "x", "my_plasmid_v2", "ab000100", "linear", "circular", "dna", "locus", "pri_bct", "bp"]) \
         if r.random() < 0.5 else r.choice(string.ascii_lowercase) + randword(r, string.ascii_lowercase + string.digits + "_", r.randint(0, 15))
+    if r.random() < 0.1:     # beyond the property's lower-case names (the theorem covers every blank-free name)
+        name = r.choice(["AB000100", "DNA", "mRNA_1", "pUC19", "PRI", "12", "20-JAN-2020", "LOCUS", "a.b-c/d", "BCT9"])
     mol, topo, div = r.randint(0, 3), r.randint(0, 1), r.randint(0, 17)
     if name in ("linear", "circular") and r.random() < 0.8:
         topo = 1 if name == "linear" else 0       # mostly the harmless combination
     date = "%02d-%s-%04d" % (r.randint(1, 31), r.choice(MONTHS), r.randint(1980, 2026))
-    pads = r.choice([[6, 15, 3, 4, 1, 0], [0, 0, 0, 0, 0, 0], [r.randint(0, 11) for _ in range(6)], []])
+    pads = r.choice([[6, 15, 3, 4, 1, 0], [0, 0, 0, 0, 0, 0], [r.randint(0, 11) for _ in range(6)], [], [r.randint(0, 40) for _ in range(6)]])
     f = [name, str(mol), str(topo), str(div), date, nats(pads), str(r.randint(0, 1))]
     bl, pl = r.choice([(9, 5), (9, 5), (9, 5), (r.randint(0, 14), r.randint(0, 7))])
     f += [str(bl), str(pl)]
+    nex = r.choice([0, 0, 1, 1, 2, 3, 4])
+    # where the extra keyword blocks stand: all after the references, DBLINK-like before KEYWORDS, or anywhere
+    cm = r.random()
+    if cm < 0.4 or nex == 0:
+        cuts = []
+    elif cm < 0.6:
+        cuts = [0, 0, 0, r.randint(1, nex)]
+    else:
+        cuts = [r.choice([0, 0, 1, 2]) for _ in range(6)]
+    omit = "".join(r.choice("01") for _ in range(5))
+    f += [nats(cuts), omit]
+    empties = r.random() < 0.25
     for kw, mx in (("DEFINITION", 40), ("ACCESSION", 2), ("VERSION", 2), ("KEYWORDS", 8), ("SOURCE", 12), ("ORGANISM", 25)):
-        t = "" if r.random() < 0.1 else ("." if r.random() < 0.1 else text(r, r.randint(1, mx), trap))
+        t = "" if r.random() < (0.5 if empties else 0.08) else ("." if r.random() < 0.1 else text(r, r.randint(1, mx), trap))
         f += [t, nats(breaks(r, t, 12))]
     nrefs = 0 if small and r.random() < 0.5 else r.choice([0, 1, 1, 2, 2, 3, 4, 5])
     f.append(str(nrefs))
@@ -186,7 +213,6 @@ def record(r, tier, big=False, trap=0.001, small=False):
         for kw, mx in (("AUTHORS", 30), ("TITLE", 30), ("JOURNAL", 20), ("PUBMED", 1), ("REMARK", 15)):
             t = "" if r.random() < 0.3 else text(r, r.randint(1, mx), trap)
             f += [t, nats(breaks(r, t, 12))]
-    nex = r.choice([0, 0, 1, 1, 2, 3])
     keys = r.sample(EXTRA, nex)
     f.append(str(nex))
     for k in keys:
@@ -199,21 +225,38 @@ def record(r, tier, big=False, trap=0.001, small=False):
         loc = location(r, n)
         lb = loc_breaks(r, loc)
         nq = r.choice([0, 0, 1, 2, 3, 4, 8])
-        if lb and r.random() < 0.85 and nq == 0:
-            nq = 1          # multi-line location without qualifier only sometimes (known finding)
         qkeys = r.sample(QKEYS, nq)
         if nq and r.random() < 0.3:
             qkeys[r.randrange(nq)] = "translation"
+        if repeat and nq >= 2 and r.random() < 0.5:
+            qkeys[r.randrange(nq)] = qkeys[r.randrange(nq)]      # a repeated key (known finding)
         f += [key, loc, nats(lb), str(nq)]
         for qk in qkeys:
+            st = r.choice([0, 0, 0, 1, 1, 2])
             if qk == "translation":
                 v = randword(r, AMINO, loglen(r, 1, 700))
-                f += [qk, v, nats(cuts(r, v, 58 - 14))]
+                f += [qk, v, nats(cuts_(r, v, 58 - 14)), str(st)]
             else:
                 v = qual_value(r, trap)
-                f += [qk, v, nats(breaks(r, v, 21 + len(qk) + 3))]
+                if st == 1 and r.random() < 0.7:
+                    v = r.choice(["1", "11", "7", "taxon:562", "a=b", "/x", "x/y", "=", "join(1..2)", "ABC"])
+                if st == 2 and r.random() < 0.8:
+                    v = ""
+                f += [qk, v, nats(breaks(r, v, 21 + len(qk) + 3)), str(st)]
     f.append(seq)
     return f
+
+
+def with_features(rec, feats):
+    """replace the feature table of a record (field list) by the given features (each a field list)"""
+    # fields: 11 header fields, 12 meta fields, refs, extras, features, seq
+    i = 11 + 12
+    nrefs = int(rec[i]); i += 1 + 12 * nrefs
+    nex = int(rec[i]); i += 1 + 3 * nex
+    out = rec[:i] + [str(len(feats))]
+    for ft in feats:
+        out += ft
+    return out + [rec[-1]]
 
 
 def mk(mode, final_newline, header, recs):
@@ -248,6 +291,19 @@ def cases(seed, tier):
             mode, nrec = r.choice(["flat", "flat", "readflat", "readflatgz"]), r.randint(1, 5)
         recs = [record(r, tier, small=(nrec > 2)) for _ in range(nrec)]
         yield mk(mode, r.random() < 0.5, mode.startswith("flat") or mode.startswith("readflat"), recs)
+    # feature-table lines of exactly 22 characters: a one-digit single-base location, one-character continuation lines
+    for i in range(4):
+        base = record(r, tier, small=True, trap=0.0)
+        yield mk("parse", i % 2 == 0, False, [with_features(base, [
+            ["variation", str(r.randint(1, 9)), "", "0"],
+            ["gene", "join(1..2,3)", "9", "1", "note", "a b c", "1,3", "0"],
+            ["CDS", "7", "", "2", "translation", "MK", "1", "0", "codon_start", "1", "", "1"]])])
+    # files of exactly five (and four, six) records: the order of the results is the order of the file
+    for k, mode, fnl in ((5, "multi", True), (5, "multi", False), (5, "flat", True), (5, "readmulti", True), (4, "multi", True), (6, "flat", False)):
+        yield mk(mode, fnl, mode.startswith("flat"), [record(r, tier, small=True) for _ in range(k)])
+    # repeated qualifier keys (known finding C01-repeated-qualifier-key)
+    for i in range(12 if tier == "quick" else 200):
+        yield mk("parse", True, False, [record(r, tier, small=True, trap=0.0, repeat=True)])
     # two-digit (and one-digit) lengths after gaps of two and more blanks
     for n in (7, 10, 20, 99):
         for g in (1, 2, 17):
@@ -310,7 +366,9 @@ def raw_cases(r, n):
         yield ["c01", "raw", r.choice(["parse", "parse", "multi", "flat"]), text]
 
 
-PARTIAL = []
+PARTIAL = ["features_recovered / parse_layout: proved for features whose qualifier keys are pairwise distinct; a feature with a repeated key "
+           "(several /db_xref) keeps only the last value because poly.Feature.Attributes is a map[string]string — known finding "
+           "C01-repeated-qualifier-key (witness theorem repeated_qualifier_key_witness); everything else of the statement is at full strength"]
 TECHNIQUE = ("Lean 4 proof over an executable model of genbank.Parse / ParseMulti / ParseFlat against an independent flat-file "
              "writer (round trip parse (layout r l) = r for every record and every layout choice); differential correspondence "
              "on generated (record, layout) pairs")
